@@ -98,6 +98,10 @@ type TSConfig struct {
 	Broken      bool
 }
 
+// import styles, weighted: dynamic imports and named imports are the interesting ones
+// (code splitting, cross-chunk imports), index 0 is the simplest
+var styleWeights = []int{ImpNamed, ImpDynamic, ImpNamed, ImpDynamic, ImpDefault, ImpStar, ImpDynamic, ImpRequire, ImpSideEffect, ImpReexportStar, ImpReexportNamed, ImpUnused, ImpNamed}
+
 func (m *Module) marker() string { return fmt.Sprintf("M%d@%d", m.ID, m.Version) }
 
 func isJS(kind string) bool {
@@ -196,7 +200,7 @@ func GenProject(g G, root string) *Project {
 			imp := Import{Target: t}
 			tm := p.Mods[t]
 			if isJS(tm.Kind) {
-				imp.Style = g.n(NumImpStyles)
+				imp.Style = styleWeights[g.n(len(styleWeights))]
 				if m.Kind == "cjs" && imp.Style != ImpDynamic {
 					imp.Style = ImpRequire
 				}
